@@ -37,12 +37,15 @@ type Pkg struct {
 	Glue      []string          `json:"glue"`   // files (relative to /verif) copied in as .go
 	Need      []string          `json:"need"`   // top-level identifiers that must exist after lifting
 	Strip     []string          `json:"stripbuildtags"`
+	LoopGuard string            `json:"loopguard"` // name of a glue function called at the head of every for-loop body (bounded-progress detection)
+	KeepDirs  bool              `json:"keepdirectives"` // leave //go: directive comments alone (build constraints of helper packages)
 	Extract   []Extract         `json:"extract"` // constants/variables copied verbatim from other files of the original package
 }
 
 type Extract struct {
-	File  string   `json:"file"`
-	Names []string `json:"names"`
+	File    string   `json:"file"`
+	Names   []string `json:"names"`
+	Imports []string `json:"imports"` // import lines the copied declarations need, e.g. "unsafe" or "abi verif/lifted/abi"
 }
 
 type Spec struct {
@@ -92,11 +95,26 @@ func liftPkg(p Pkg, repo, goroot, out, verif string) {
 	}
 	hashes := map[string]string{}
 	have := map[string]bool{}
+	var files [][2]string // spec name, real path
 	for _, f := range p.Files {
 		src := strings.ReplaceAll(strings.ReplaceAll(f, "${REPO}", repo), "${GOROOT}", goroot)
 		for k, v := range vars {
 			src = strings.ReplaceAll(src, "${"+k+"}", v)
 		}
+		if strings.Contains(src, "*") {
+			m, _ := filepath.Glob(src)
+			sort.Strings(m)
+			for _, x := range m {
+				if !strings.HasSuffix(x, "_test.go") {
+					files = append(files, [2]string{filepath.Join(filepath.Dir(f), filepath.Base(x)), x})
+				}
+			}
+			continue
+		}
+		files = append(files, [2]string{f, src})
+	}
+	for _, ff := range files {
+		f, src := ff[0], ff[1]
 		data, err := os.ReadFile(src)
 		if err != nil {
 			fail("read %s: %v", src, err)
@@ -158,9 +176,46 @@ func liftPkg(p Pkg, repo, goroot, out, verif string) {
 			want[n] = true
 		}
 		var sb strings.Builder
-		fmt.Fprintf(&sb, "package %s\n\n// declarations copied verbatim from %s\n", p.Name, filepath.Base(src))
+		fmt.Fprintf(&sb, "package %s\n\n", p.Name)
+		for _, im := range ex.Imports {
+			f := strings.Fields(im)
+			if len(f) == 2 {
+				fmt.Fprintf(&sb, "import %s %q\n", f[0], f[1])
+			} else {
+				fmt.Fprintf(&sb, "import %q\n", f[0])
+			}
+		}
+		fmt.Fprintf(&sb, "\n// declarations copied verbatim from %s\n", filepath.Base(src))
 		for _, d := range af.Decls {
+			if fd, ok := d.(*ast.FuncDecl); ok {
+				name := fd.Name.Name
+				if fd.Recv != nil {
+					name = recvName(fd) + "." + name
+				}
+				if want[name] {
+					fd.Doc = nil
+					var eb bytes.Buffer
+					format.Node(&eb, fset, fd)
+					sb.WriteString(eb.String() + "\n\n")
+					have[name] = true
+					delete(want, name)
+				}
+				continue
+			}
 			gd, ok := d.(*ast.GenDecl)
+			if ok && gd.Tok == token.TYPE {
+				for _, sp := range gd.Specs {
+					ts := sp.(*ast.TypeSpec)
+					if want[ts.Name.Name] {
+						var eb bytes.Buffer
+						format.Node(&eb, fset, ts)
+						sb.WriteString("type " + eb.String() + "\n\n")
+						have[ts.Name.Name] = true
+						delete(want, ts.Name.Name)
+					}
+				}
+				continue
+			}
 			if !ok || (gd.Tok != token.CONST && gd.Tok != token.VAR) {
 				continue
 			}
@@ -246,6 +301,9 @@ func rewrite(af *ast.File, p Pkg) {
 	af.Name.Name = p.Name
 	// 1. directive comments: //go:linkname, //llgo:link, //go:build (selected), cgo-ish
 	for _, cg := range af.Comments {
+		if p.KeepDirs {
+			break
+		}
 		for _, c := range cg.List {
 			t := c.Text
 			if strings.HasPrefix(t, "//go:linkname") || strings.HasPrefix(t, "//llgo:") || strings.HasPrefix(t, "// llgo:") ||
@@ -321,6 +379,23 @@ func rewrite(af *ast.File, p Pkg) {
 		if !added {
 			af.Decls = append([]ast.Decl{&ast.GenDecl{Tok: token.IMPORT, Specs: []ast.Spec{spec}}}, af.Decls...)
 		}
+	}
+	// 3b. loop guards
+	if p.LoopGuard != "" {
+		ast.Inspect(af, func(n ast.Node) bool {
+			var body *ast.BlockStmt
+			switch l := n.(type) {
+			case *ast.ForStmt:
+				body = l.Body
+			case *ast.RangeStmt:
+				body = l.Body
+			}
+			if body != nil {
+				call := &ast.ExprStmt{X: &ast.CallExpr{Fun: ast.NewIdent(p.LoopGuard)}}
+				body.List = append([]ast.Stmt{call}, body.List...)
+			}
+			return true
+		})
 	}
 	// 4. drop declarations
 	dropF := map[string]bool{}
